@@ -42,6 +42,8 @@ pub fn alphabet(core: bool) -> Vec<(&'static str, Call)> {
         ("start_file-stored-level3", Call::StartFile { name: "s3".into(), opts: FOpts { level: Some(3), ..o(0) } }),
         ("start_file-method1", Call::StartFile { name: "u1".into(), opts: o(1) }),
         ("start_file-aes", Call::StartFile { name: "aes".into(), opts: o(99) }),
+        // a name one byte too long for the format: must not disturb what was created before it
+        ("start_file-name-65536", Call::StartFile { name: "n".repeat(65536), opts: o(0) }),
         ("start_file-large", Call::StartFile { name: "L".into(), opts: FOpts { large: true, ..o(0) } }),
         ("start_file-zipcrypto", Call::StartFile { name: "enc".into(), opts: FOpts { password: Some(PW.to_vec()), ..o(0) } }),
         ("aligned-1", Call::StartAligned { name: "al1".into(), opts: o(0), align: 1 }),
@@ -76,6 +78,7 @@ pub fn alphabet(core: bool) -> Vec<(&'static str, Call)> {
         "end_extra",
         "add_directory",
         "raw_copy-deflated",
+        "start_file-name-65536",
         "finish",
         "drop",
     ];
